@@ -65,6 +65,18 @@ pub fn cmd_fireloop(args: &Args) -> i32 {
             e.set_fact("n", 0i64);
             (e.fire_all().len(), 1000 * kinds.len())
         }
+        "ul" if kinds == vec!["CHAIN".to_string()] => {
+            // 130 rules that enable one another one pass at a time (rule k matches only after rule k-1 has written n = k-1):
+            // every pass fires exactly one rule, so the number of firings is the number of passes - at most the bound of 100
+            let mut e = ReteUlEngine::new();
+            for k in 1..=130i64 {
+                e.add_rule_with_action(format!("link{}", k), alpha("n", "==", &(k - 1).to_string()), 0, false, move |f: &mut std::collections::HashMap<String, String>| {
+                    f.insert("n".to_string(), k.to_string());
+                });
+            }
+            e.set_fact("n".to_string(), "0".to_string());
+            (e.fire_all().len(), 100)
+        }
         _ => {
             let mut e = ReteUlEngine::new();
             for k in &kinds {
